@@ -213,3 +213,8 @@ def feed (count skip : Nat) : Cnt α → List α → Cnt α
 end Cnt
 
 end Win
+
+namespace Win
+/-- number of window subscribers currently attached (each holds one reference of the `RefCountDisposable`). -/
+def Base.attachedCount {α : Type} (b : Base α) : Nat := b.wins.countP (·.attached)
+end Win
